@@ -471,7 +471,13 @@ func dispatch(op, pat string, args []string, a *argTrack) string {
 		} else {
 			p := &babyjub.Point{X: a.Int(args[1]), Y: a.Int(args[2])}
 			recv = babyjub.NewPoint()
+			if pat == "dirty" {
+				recv = &babyjub.Point{X: big.NewInt(12345), Y: big.NewInt(67890)}
+			}
 			ret = recv.Mul(s, p)
+		}
+		if ret != recv {
+			return showPt(ret) + " recv=" + showPt(recv) + "!returned-other-object"
 		}
 		return showPt(ret) + " recv=" + showPt(recv)
 	case "bj.set":
